@@ -21,7 +21,7 @@ abbrev Hash := Bytes → Bytes
 abbrev Kdf := Bytes → Bytes → Nat → Nat → Bytes
 
 /-- the BIP-39 English word list as byte strings -/
-def wordlist : List Bytes := Bip39English.english.map strBytes
+@[irreducible] def wordlist : List Bytes := Bip39English.english.map strBytes
 
 def legalEntropyLen (n : Nat) : Bool := n == 16 || n == 20 || n == 24 || n == 28 || n == 32
 def legalWordCount (n : Nat) : Bool := n == 12 || n == 15 || n == 18 || n == 21 || n == 24
